@@ -295,11 +295,6 @@ fn known_exclusion(c: &Case, tls: &[u64], known: &dyn Fn(&str) -> bool) -> Optio
         if known("raptor-small-block") && sig_raptor_small_block(eff, *tl) {
             return Some("raptor-small-block".into());
         }
-        // a NoCache object is forgotten the moment it completes: any later packet of it (repair
-        // symbols still in flight, a further transfer) creates a new writer
-        if known("nocache-redelivered") && o.cache == Some(CacheSpec::NoCache) && (o.max_transfer_count > 1 || (eff.parity > 0 && *tl > 0)) {
-            return Some("nocache-redelivered".into());
-        }
     }
     if known("completed-registry-gc") && c.rx.receive_once && !c.sender.full_fdt && c.objs.len() >= 2 && c.objs.iter().any(|o| o.max_transfer_count > 1) {
         return Some("completed-registry-gc".into());
